@@ -445,7 +445,8 @@ fn run_transport(
     let mut clients_to_remove = Vec::new();
     let mut metadata = HashMap::new();
     let mut next_token = START_TOKEN;
-    let mut buffered_pmsgs = VecDeque::with_capacity(buffer_limit);
+    // An unlimited buffer has no meaningful capacity to reserve up front.
+    let mut buffered_pmsgs = VecDeque::with_capacity(buffer_size.unwrap_or(0));
 
     loop {
         let _span = trace_span!("transport");
